@@ -126,13 +126,24 @@ class ExprMixin:
                 parts.append(p.value)
             else:
                 v = self.eval(p.value)
-                if isinstance(v, str) and not p.format_spec and p.conversion == -1:
+                plain = not p.format_spec and p.conversion == -1
+                if isinstance(v, str) and plain:
                     parts.append(v)
-                elif isinstance(v, int) and not isinstance(v, bool):
+                elif isinstance(v, int) and not isinstance(v, bool) and plain:
                     parts.append(str(v))
+                elif isinstance(v, SV) and v.ty == STR and plain:
+                    parts.append(v)
+                elif self.ctx.enc == "native":
+                    # text of an unmodelled value: some string
+                    parts.append(SV(STR, z3.Const(self.ctx.fresh_name("fmt"), z3.StringSort())))
                 else:
                     return Opaque("fstring")
-        return "".join(parts)
+        if all(isinstance(p, str) for p in parts):
+            return "".join(parts)
+        res = ""
+        for p in parts:
+            res = self.ctx.strs.concat(res, p) if not (isinstance(res, str) and res == "") else p
+        return res
 
     def e_Lambda(self, n):
         return Closure(n, self.env)
